@@ -66,6 +66,14 @@ class Resolver:
         return names_match(w, r)
 
     def pick(self, w, runion):
+        wd = deref(w, self.wt)
+        if wd["k"] in NAMED:
+            # several reader branches may match by unqualified name: the one with the identical full name is meant
+            # (otherwise reading with a reader schema equal to the writer schema could not give the plain result)
+            for b in runion["branches"]:
+                bd = deref(b, self.rt)
+                if bd["k"] == wd["k"] and bd["name"] == wd["name"] and self.matches(w, b, exact=True):
+                    return b
         for b in runion["branches"]:
             if self.matches(w, b, exact=True):
                 return b
